@@ -218,7 +218,9 @@ func LinkProtoMin(t *sim.Tape, codecs []Codec, allowV0 bool, minLen int) Proto {
 		}
 	}
 	if mt == mh.IDENTITY {
-		ln = -1
+		// an identity digest is the whole block whatever MhLength says: give it a length
+		// sometimes (shorter than most blocks), it must make no difference
+		ln = []int{-1, -1, 2, 5, 16}[t.Choice(5, "lp.idlen")]
 	}
 	desc := ""
 	if allowV0 && t.Pct(12, "lp.v0") {
